@@ -699,8 +699,12 @@ def run(ctx):
                         "observed_stdout": out[-600:], "observed_stderr": re.sub(r"\(\d+\) panicked", "panicked", err[-1500:]),
                         "how": "mscript run main.ms -q in a directory holding the files"})
 
+    slow_core = []
     for b, r in zip(core_b, results):
         real = r["real"]
+        if real["rc"] == 124:
+            slow_core.append(b)
+            continue
         # a run that panics writes no dump: tie_all calls that "rejected"; the specification check still applies
         judge(b, real["rc"], real["stdout"], real["stderr"])
 
@@ -730,14 +734,20 @@ def run(ctx):
     # ---------------- everything else: real binary versus the specification
     base = ctx.mktemp()
 
-    def one(b):
+    def one(b, timeout=30):
         d = programs.materialize({"files": b.files}, base)
-        rc, out, err = programs.run_bin(binary, ["run", b.entry, "-q"], d, timeout=30)
+        rc, out, err = programs.run_bin(binary, ["run", b.entry, "-q"], d, timeout=timeout)
         import shutil
         shutil.rmtree(d, ignore_errors=True)
         return b, rc, out, err
+    slow = slow_core
     for b, rc, out, err in programs.pmap(one, other_b):
-        judge(b, rc, out, err)
+        if rc == 124:
+            slow.append(b)                # a loaded machine, or a program that hangs: decided below, one at a time
+        else:
+            judge(b, rc, out, err)
+    for b in slow[:20]:
+        judge(*one(b, timeout=300))
 
     # ---------------- native stack exhaustion (outside every model): observed
     def deep(n):
